@@ -139,6 +139,9 @@ def unit_set(rnd):
             for _ in range(rnd.randint(0, 2)):
                 L.append('Network=' + rnd.choice([ref('network'), ref('container'), ref('network') + ':ip=1.2.3.4', 'host', ref('container') + ':x',
                                                   ref('network') + ':mac=92:d0:c6:0a:29:33', ref('network') + ':ip6=fd00::5,alias=a:b', 'bridge:ip=10.0.0.2:x']))
+            if rnd.random() < 0.12:
+                # a named volume whose name ends like a unit file of another type: Volume= looks only *.volume up
+                L.append('Volume=' + rnd.choice(['lookalike.image:/la', 'lookalike.network:/la', 'lookalike.build:/la:ro', 'lookalike.pod:/la']))
             others = [x for x in names if x.endswith('.container') and x != st + '.container']
             if others and rnd.random() < 0.2:
                 L.append('Network=' + rnd.choice(others))      # (joining another container's network: the one reference that needs a *container's* name)
